@@ -336,3 +336,529 @@ Proof.
   - rewrite find_put_other by exact Hn. reflexivity.
   - apply find_drop_other; exact Hn.
 Qed.
+
+(* ================================================================== *)
+(* 6. single-segment theorems of C06                                    *)
+(* ================================================================== *)
+
+Lemma nil_run (st : static) : forall s id c,
+  enabled st s -> c_has_run c = false ->
+  step st s (Begin id c) = (s, [OReturned id VNil false; reading st s]).
+Proof.
+  intros s id c [Hm Hd] Hr. unfold step, step_core, begin_call. rewrite Hm, Hd, Hr. reflexivity.
+Qed.
+
+Lemma ret_one id v a : returns id [OReturned id v a] = [(v, a)].
+Proof. simpl. rewrite Nat.eqb_refl. reflexivity. Qed.
+Lemma fbi_one id v a : fb_invocations id [OFbInvoked id v a] = [(v, a)].
+Proof. simpl. rewrite Nat.eqb_refl. reflexivity. Qed.
+Lemma ri_one id v a : run_invocations id [ORunInvoked id v a] = [(v, a)].
+Proof. simpl. rewrite Nat.eqb_refl. reflexivity. Qed.
+Lemma ret_cons_q id x o : qo x -> returns id (x :: o) = returns id o.
+Proof. destruct x; simpl; tauto. Qed.
+Lemma ret_runend id i b o : returns id (ORunEnd i b :: o) = returns id o.
+Proof. reflexivity. Qed.
+Lemma fbi_runend id i b o : fb_invocations id (ORunEnd i b :: o) = fb_invocations id o.
+Proof. reflexivity. Qed.
+Lemma ri_runend id i b o : run_invocations id (ORunEnd i b :: o) = run_invocations id o.
+Proof. reflexivity. Qed.
+
+(* projections of the three exits of the fallback stage *)
+Lemma fallback_stage_proj st cs err ran derived s :
+  let id := cs_id cs in
+  let o := snd (fallback_stage st cs err ran derived s) in
+  run_invocations id o = [] /\
+  if fb_available s (cs_call cs) then
+    if fb_limit_hit s
+    then returns id o = [(VFbThrottled, fb_after cs ran derived)] /\ fb_invocations id o = []
+    else fb_invocations id o = [(err, true)] /\ returns id o = []
+  else returns id o = [(err, fb_after cs ran derived)] /\ fb_invocations id o = [].
+Proof.
+  pose proof (fallback_stage_cases st cs err ran derived s) as H. cbv zeta in *.
+  destruct (fb_available s (cs_call cs)); [destruct (fb_limit_hit s)|]; rewrite H; cbn [snd].
+  - rewrite ri_app, ret_app, fbi_app, ret_one.
+    rewrite (quiet_ri _ _ (quiet_emit_fb _ _ _ _)), (quiet_ret _ _ (quiet_emit_fb _ _ _ _)),
+            (quiet_fbi _ _ (quiet_emit_fb _ _ _ _)). auto.
+  - rewrite fbi_one. auto.
+  - rewrite ret_one. auto.
+Qed.
+
+Lemma after_run (st : static) : forall s id e cs start expected derived,
+  find_call id s = Some cs -> cs_phase cs = PRun start expected derived ->
+  res_panics (e_res e) = false ->
+  let o := snd (step st s (EndRun id e)) in
+  let r := e_res e in
+  if res_is_nil r then
+    (exists a, returns id o = [(VNil, a)]) /\ fb_invocations id o = []
+  else if res_is_bad r then
+    (exists a, returns id o = [(res_val r, a)]) /\ fb_invocations id o = []
+  else if fb_available s (cs_call cs) then
+    if fb_limit_hit s
+    then (exists a, returns id o = [(VFbThrottled, a)]) /\ fb_invocations id o = []
+    else fb_invocations id o = [(res_val r, true)] /\ returns id o = []
+  else (exists a, returns id o = [(res_val r, a)]) /\ fb_invocations id o = [].
+Proof.
+  intros s id e cs start expected derived Hf Hp Hr. cbv zeta.
+  unfold step, step_core. rewrite (end_run_PRun st id e s cs start expected derived Hf Hp Hr). cbv zeta.
+  match goal with |- context [run_fanout ?a ?b ?c ?d ?e ?f ?g ?h] =>
+    pose proof (run_fanout_inert a b c d e f g h) as HI; destruct (run_fanout a b c d e f g h) as [s1 o1] end.
+  destruct HI as (Hcalls & Hcfg & Hfbs & Hcmds & Hclock & Hq); simpl in Hcalls, Hcfg, Hfbs, Hcmds, Hclock, Hq.
+  destruct (res_is_nil (e_res e)).
+  { cbn [snd]. rewrite <- !app_comm_cons, ret_runend, fbi_runend, !ret_app, !fbi_app, ret_one.
+    rewrite (quiet_ret _ _ Hq), (quiet_fbi _ _ Hq), (quiet_ret _ _ (quiet_reading _ _)), (quiet_fbi _ _ (quiet_reading _ _)).
+    simpl. eauto. }
+  destruct (res_is_bad (e_res e)).
+  { cbn [snd]. rewrite <- !app_comm_cons, ret_runend, fbi_runend, !ret_app, !fbi_app, ret_one.
+    rewrite (quiet_ret _ _ Hq), (quiet_fbi _ _ Hq), (quiet_ret _ _ (quiet_reading _ _)), (quiet_fbi _ _ (quiet_reading _ _)).
+    simpl. eauto. }
+  set (s2 := set_cmds s1 (cmds s1 - 1)).
+  pose proof (fallback_stage_proj st cs (res_val (e_res e)) true derived s2) as HP. cbv zeta in HP.
+  rewrite (find_call_id _ _ _ Hf) in HP.
+  assert (Ea : fb_available s2 (cs_call cs) = fb_available s (cs_call cs)).
+  { unfold fb_available, s2; cbn [cfg set_cmds]. rewrite Hcfg. reflexivity. }
+  assert (El : fb_limit_hit s2 = fb_limit_hit s).
+  { unfold fb_limit_hit, s2; cbn [cfg fbs set_cmds]. rewrite Hcfg, Hfbs. reflexivity. }
+  rewrite Ea, El in HP.
+  destruct (fallback_stage st cs (res_val (e_res e)) true derived s2) as [s3 o3]. cbn [snd] in *.
+  rewrite <- !app_comm_cons, ret_runend, fbi_runend, !ret_app, !fbi_app.
+  rewrite (quiet_ret _ _ Hq), (quiet_fbi _ _ Hq), (quiet_ret _ _ (quiet_reading _ _)), (quiet_fbi _ _ (quiet_reading _ _)).
+  rewrite !app_nil_r. cbn [app].
+  destruct HP as [_ HP].
+  destruct (fb_available s (cs_call cs)); [destruct (fb_limit_hit s)|]; destruct HP as [H1 H2]; rewrite H1, H2; eauto.
+Qed.
+
+Lemma end_fb_PFb st id f s cs fbstart ran derived :
+  find_call id s = Some cs -> cs_phase cs = PFb fbstart ran derived ->
+  exists pre, quiet pre /\
+  end_fb st id f s =
+  (drop_call id (set_fbs s (fbs s - 1)),
+   pre ++ [OReturned id (match f with FNil => VNil | FErr k => VFb k | FPanic v => VPanic v end) (fb_after cs ran derived)]).
+Proof.
+  intros Hf Hp. unfold end_fb. rewrite Hf, Hp. unfold fb_after. destruct f.
+  - eexists; split; [|reflexivity]. apply quiet_emit_fb.
+  - eexists; split; [|reflexivity]. apply quiet_emit_fb.
+  - exists []; split; [constructor | reflexivity].
+Qed.
+
+Lemma after_fallback (st : static) : forall s id f cs fbstart ran derived,
+  find_call id s = Some cs -> cs_phase cs = PFb fbstart ran derived ->
+  exists a, returns id (snd (step st s (EndFb id f))) =
+            [(match f with FNil => VNil | FErr k => VFb k | FPanic v => VPanic v end, a)].
+Proof.
+  intros s id f cs fbstart ran derived Hf Hp.
+  destruct (end_fb_PFb st id f s cs fbstart ran derived Hf Hp) as (pre & Hq & E).
+  unfold step, step_core. rewrite E. cbn [snd].
+  rewrite !ret_app, ret_one, (quiet_ret _ _ Hq), (quiet_ret _ _ (quiet_reading _ _)). simpl. eauto.
+Qed.
+
+(* ================================================================== *)
+(* 7. Begin decomposed along `gate`                                     *)
+(* ================================================================== *)
+
+Definition cs_pass (id : nat) (c : call) : callst :=
+  {| cs_id := id; cs_call := c; cs_phase := PPass; cs_done := c_done c |}.
+
+(* s1 is s after the Allow consultation: only the closer may differ *)
+Definition allow_only (s s1 : state) : Prop :=
+  cfg s1 = cfg s /\ flag s1 = flag s /\ cmds s1 = cmds s /\ fbs s1 = fbs s /\ opn s1 = opn s /\
+  calls s1 = calls s /\ clock s1 = clock s.
+
+Lemma begin_call_cases st id c s :
+  enabled st s -> c_has_run c = true ->
+  exists s1 o1, quiet o1 /\ allow_only s s1 /\
+  begin_call st id c s =
+  let now := clock s in
+  match gate s c with
+  | GShed =>
+      let (s2, o2) := emit_run st KShort now None s1 in
+      let (s3, o3) := fallback_stage st (cs_pass id c) VCircuitOpen false false s2 in
+      (s3, o1 ++ o2 ++ o3)
+  | GVeto =>
+      let (s3, o3) := fallback_stage st (cs_pass id c) VCircuitOpen false false s1 in
+      (s3, o1 ++ OAsked QPrevent now :: o3)
+  | GReject =>
+      let (s2, o2) := emit_run st KReject now None s1 in
+      let (s3, o3) := fallback_stage st (cs_pass id c) VThrottled false false s2 in
+      (s3, o1 ++ OAsked QPrevent now :: o2 ++ o3)
+  | GRun =>
+      let derived := 0 <? l_timeout (cfg s) in
+      let expected := if derived then Some (now + l_timeout (cfg s)) else None in
+      let dl := if derived then Some (min_deadline (c_deadline c) (now + l_timeout (cfg s))) else c_deadline c in
+      (put_call {| cs_id := id; cs_call := c; cs_phase := PRun now expected derived; cs_done := c_done c |}
+                (set_cmds s1 (cmds s + 1)),
+       o1 ++ [OAsked QPrevent now; ORunInvoked id derived dl])
+  end.
+Proof.
+  intros [Hm Hd] Hr.
+  unfold begin_call, gate, shed_by_open, closer_admits, run_limit_hit. fold (cs_pass id c).
+  rewrite Hm, Hd, Hr. cbn [negb].
+  destruct (is_open s) eqn:Eo; cbn [negb andb].
+  - destruct (l_force_open (cfg s)) eqn:Ef; cbn [orb].
+    + exists s, []. split; [constructor|]. split; [unfold allow_only; tauto|]. reflexivity.
+    + destruct (closer_allow (clock s) (c_allow c) (cls s)) as [[cl1 b] timers] eqn:Ea. cbn [fst snd].
+      exists (set_logic s (opn s) cl1), (OAsked QAllow (clock s) :: map OTimer timers).
+      split; [quiet_tac|]. split; [unfold allow_only; cbn; tauto|].
+      destruct b; cbn [negb]; [|reflexivity].
+      cbn [opn set_logic cfg cmds].
+      destruct (opener_prevent (c_prevent c) (opn s)); [reflexivity|].
+      destruct ((0 <=? l_max (cfg s)) && (l_max (cfg s) <? cmds s + 1)); reflexivity.
+  - exists s, []. split; [constructor|]. split; [unfold allow_only; tauto|].
+    destruct (opener_prevent (c_prevent c) (opn s)); [reflexivity|].
+    destruct ((0 <=? l_max (cfg s)) && (l_max (cfg s) <? cmds s + 1)); reflexivity.
+Qed.
+
+Lemma begin_call_pass st id c s :
+  passthrough st s -> begin_call st id c s = (put_call (cs_pass id c) s, [ORunInvoked id false (c_deadline c)]).
+Proof.
+  intros [Hm | Hd]; unfold begin_call; fold (cs_pass id c).
+  - destruct (s_mode st); try reflexivity. congruence.
+  - destruct (s_mode st); try reflexivity. rewrite Hd. reflexivity.
+Qed.
+
+Lemma mode_cases st s : passthrough st s \/ enabled st s.
+Proof.
+  unfold passthrough, enabled. destruct (s_mode st); try (left; left; discriminate).
+  destruct (l_disabled (cfg s)); [left; right; reflexivity | right; split; reflexivity].
+Qed.
+
+Lemma fb_available_allow s s1 c : cfg s1 = cfg s -> fb_available s1 c = fb_available s c.
+Proof. unfold fb_available; intros ->; reflexivity. Qed.
+Lemma fb_limit_hit_allow s s1 : cfg s1 = cfg s -> fbs s1 = fbs s -> fb_limit_hit s1 = fb_limit_hit s.
+Proof. unfold fb_limit_hit; intros -> ->; reflexivity. Qed.
+
+Lemma throttled (st : static) : forall s id c,
+  enabled st s -> c_has_run c = true -> gate s c = GReject ->
+  let o := snd (step st s (Begin id c)) in
+  run_invocations id o = [] /\ refusal_outcome s id c VThrottled o.
+Proof.
+  intros s id c He Hr Hg. cbv zeta.
+  destruct (begin_call_cases st id c s He Hr) as (s1 & o1 & Hq & Ha & E).
+  unfold step, step_core. rewrite E, Hg. cbv zeta.
+  destruct Ha as (Hcfg & _ & _ & Hfbs & _ & _ & _).
+  pose proof (emit_run_inert st KReject (clock s) None s1) as HI.
+  destruct (emit_run st KReject (clock s) None s1) as [s2 o2].
+  destruct HI as (_ & Hcfg2 & Hfbs2 & _ & _ & Hq2); cbn [fst snd] in *.
+  pose proof (fallback_stage_proj st (cs_pass id c) VThrottled false false s2) as HP. cbv zeta in HP.
+  cbn [cs_id cs_call cs_pass] in HP.
+  rewrite (fb_available_allow s s2) in HP by congruence.
+  rewrite (fb_limit_hit_allow s s2) in HP by congruence.
+  destruct (fallback_stage st (cs_pass id c) VThrottled false false s2) as [s3 o3]. cbn [snd] in *.
+  assert (Hq' : quiet (o1 ++ OAsked QPrevent (clock s) :: o2)) by quiet_tac.
+  replace ((o1 ++ OAsked QPrevent (clock s) :: o2 ++ o3) ++ [reading st s3])
+    with ((o1 ++ OAsked QPrevent (clock s) :: o2) ++ o3 ++ [reading st s3])
+    by (repeat (rewrite <- app_assoc || rewrite <- app_comm_cons); reflexivity).
+  destruct HP as [HR HP].
+  set (pre := o1 ++ OAsked QPrevent (clock s) :: o2) in *. clearbody pre.
+  unfold refusal_outcome.
+  rewrite !ri_app, !ret_app, !fbi_app.
+  rewrite (quiet_ri _ _ Hq'), (quiet_ret _ _ Hq'), (quiet_fbi _ _ Hq').
+  rewrite (quiet_ri _ _ (quiet_reading _ _)), (quiet_ret _ _ (quiet_reading _ _)), (quiet_fbi _ _ (quiet_reading _ _)).
+  rewrite !app_nil_r. cbn [app]. split; [exact HR|].
+  destruct (fb_available s c); [destruct (fb_limit_hit s)|]; exact HP.
+Qed.
+
+(* ================================================================== *)
+(* 8. every segment: whom it concerns, what it can emit                 *)
+(* ================================================================== *)
+
+(* 0: call id is not in flight; 1: in its fallback; 2: in its run function *)
+Definition rank (id : nat) (s : state) : nat :=
+  match find_call id s with
+  | None => 0
+  | Some cs => match cs_phase cs with PFb _ _ _ => 1 | _ => 2 end
+  end.
+
+Lemma rank_find id s s1 : find_call id s1 = find_call id s -> rank id s1 = rank id s.
+Proof. unfold rank; intros ->; reflexivity. Qed.
+Lemma rank_calls id s s1 : calls s1 = calls s -> rank id s1 = rank id s.
+Proof. intros H; apply rank_find, find_call_calls, H. Qed.
+Lemma rank_drop_same id s : rank id (drop_call id s) = 0%nat.
+Proof. unfold rank; rewrite find_drop_same; reflexivity. Qed.
+Lemma rank_put_same c s :
+  rank (cs_id c) (put_call c s) = match cs_phase c with PFb _ _ _ => 1%nat | _ => 2%nat end.
+Proof. unfold rank; rewrite find_put_same; reflexivity. Qed.
+Lemma rank_le2 id s : (rank id s <= 2)%nat.
+Proof. unfold rank. destruct (find_call id s) as [cs|]; [destruct (cs_phase cs)|]; lia. Qed.
+
+(* what is still allowed for call id after this segment *)
+Definition budget (id : nat) (o : list obs) (s' : state) : Prop :=
+  (length (fb_invocations id o) + (rank id s' - 1) <= 1)%nat /\
+  (length (returns id o) + Nat.min 1 (rank id s') <= 1)%nat.
+
+Lemma budget_pre id pre o s' : quiet pre -> budget id o s' -> budget id (pre ++ o) s'.
+Proof. unfold budget. intros Hq. rewrite fbi_app, ret_app, (quiet_fbi _ _ Hq), (quiet_ret _ _ Hq). simpl. tauto. Qed.
+
+Lemma fallback_stage_summary st cs err ran derived s :
+  let id := cs_id cs in
+  let p := fallback_stage st cs err ran derived s in
+  shaped id (snd p) /\ (forall j, j <> id -> find_call j (fst p) = find_call j s) /\
+  run_invocations id (snd p) = [] /\ budget id (snd p) (fst p).
+Proof.
+  cbv zeta. split; [apply fallback_stage_shaped|].
+  split; [intros j Hj; apply fallback_stage_other; congruence|].
+  pose proof (fallback_stage_proj st cs err ran derived s) as HP. cbv zeta in HP.
+  destruct HP as [HR HP]. split; [exact HR|].
+  pose proof (fallback_stage_cases st cs err ran derived s) as HC. cbv zeta in HC.
+  unfold budget.
+  destruct (fb_available s (cs_call cs)); [destruct (fb_limit_hit s)|]; destruct HP as [H1 H2]; rewrite H1, H2, HC; cbn [fst].
+  - rewrite rank_drop_same. simpl. lia.
+  - match goal with |- context [put_call ?c ?s] => pose proof (rank_put_same c s) as Hr; cbn [cs_id cs_phase] in Hr; rewrite Hr end.
+    simpl. lia.
+  - rewrite rank_drop_same. simpl. lia.
+Qed.
+
+Lemma begin_call_nil st id c s :
+  enabled st s -> c_has_run c = false -> begin_call st id c s = (s, [OReturned id VNil false]).
+Proof. intros [Hm Hd] Hr. unfold begin_call. rewrite Hm, Hd, Hr. reflexivity. Qed.
+
+Lemma begin_summary st id c s :
+  let p := begin_call st id c s in
+  shaped id (snd p) /\ (forall j, j <> id -> find_call j (fst p) = find_call j s) /\
+  (find_call id s = None -> (length (run_invocations id (snd p)) <= 1)%nat /\ budget id (snd p) (fst p)).
+Proof.
+  cbv zeta. destruct (mode_cases st s) as [Hp | He].
+  { rewrite (begin_call_pass st id c s Hp). cbn [fst snd]. split; [repeat constructor|].
+    split; [intros j Hj; apply find_put_other; cbn; congruence|].
+    intros _. unfold budget. pose proof (rank_put_same (cs_pass id c) s) as Hr. cbn in Hr. rewrite Hr.
+    simpl. rewrite Nat.eqb_refl. simpl. lia. }
+  destruct (c_has_run c) eqn:Hr.
+  2:{ rewrite (begin_call_nil st id c s He Hr). cbn [fst snd]. split; [repeat constructor|].
+      split; [reflexivity|]. intros Hn. unfold budget, rank. rewrite Hn. simpl. rewrite Nat.eqb_refl. simpl. lia. }
+  destruct (begin_call_cases st id c s He Hr) as (s1 & o1 & Hq & Ha & E). rewrite E. cbv zeta.
+  destruct Ha as (Hcfg & _ & _ & Hfbs & _ & Hcalls & _).
+  assert (refused : forall s2 err pre, calls s2 = calls s -> quiet pre ->
+    let p := (let (s3, o3) := fallback_stage st (cs_pass id c) err false false s2 in (s3, pre ++ o3)) in
+    shaped id (snd p) /\ (forall j, j <> id -> find_call j (fst p) = find_call j s) /\
+    (find_call id s = None -> (length (run_invocations id (snd p)) <= 1)%nat /\ budget id (snd p) (fst p))).
+  { intros s2 err pre Hc2 Hqp. cbv zeta.
+    pose proof (fallback_stage_summary st (cs_pass id c) err false false s2) as HS. cbv zeta in HS.
+    cbn [cs_id cs_pass] in HS.
+    destruct (fallback_stage st (cs_pass id c) err false false s2) as [s3 o3]. cbn [fst snd] in *.
+    destruct HS as (Hs & Hf & Hri & Hb).
+    split; [apply shaped_app; [apply quiet_shaped; exact Hqp | exact Hs]|].
+    split; [intros j Hj; rewrite (Hf j Hj); apply find_call_calls; exact Hc2|].
+    intros _. split; [rewrite ri_app, (quiet_ri _ _ Hqp), Hri; simpl; lia|].
+    apply budget_pre; assumption. }
+  destruct (gate s c).
+  - pose proof (emit_run_inert st KShort (clock s) None s1) as HI.
+    destruct (emit_run st KShort (clock s) None s1) as [s2 o2].
+    destruct HI as (Hc2 & _ & _ & _ & _ & Hq2); cbn [fst snd] in *.
+    specialize (refused s2 VCircuitOpen (o1 ++ o2)). cbv zeta in refused.
+    destruct (fallback_stage st (cs_pass id c) VCircuitOpen false false s2) as [s3 o3].
+    rewrite app_assoc. apply refused; [congruence | quiet_tac].
+  - specialize (refused s1 VCircuitOpen (o1 ++ [OAsked QPrevent (clock s)])). cbv zeta in refused.
+    destruct (fallback_stage st (cs_pass id c) VCircuitOpen false false s1) as [s3 o3].
+    replace (o1 ++ OAsked QPrevent (clock s) :: o3) with ((o1 ++ [OAsked QPrevent (clock s)]) ++ o3)
+      by (rewrite <- app_assoc; reflexivity).
+    apply refused; [congruence | quiet_tac].
+  - pose proof (emit_run_inert st KReject (clock s) None s1) as HI.
+    destruct (emit_run st KReject (clock s) None s1) as [s2 o2].
+    destruct HI as (Hc2 & _ & _ & _ & _ & Hq2); cbn [fst snd] in *.
+    specialize (refused s2 VThrottled (o1 ++ OAsked QPrevent (clock s) :: o2)). cbv zeta in refused.
+    destruct (fallback_stage st (cs_pass id c) VThrottled false false s2) as [s3 o3].
+    replace (o1 ++ OAsked QPrevent (clock s) :: o2 ++ o3) with ((o1 ++ OAsked QPrevent (clock s) :: o2) ++ o3)
+      by (rewrite <- app_assoc; reflexivity).
+    apply refused; [congruence | quiet_tac].
+  - cbn [fst snd]. split.
+    { apply shaped_app; [apply quiet_shaped; exact Hq|]. repeat constructor. }
+    split; [intros j Hj; rewrite find_put_other by (cbn; congruence); apply find_call_calls; exact Hcalls|].
+    intros _. rewrite ri_app, (quiet_ri _ _ Hq). apply and_comm. split; [apply budget_pre; [exact Hq|]|].
+    + unfold budget.
+      match goal with |- context [put_call ?c ?s] => pose proof (rank_put_same c s) as Hrk; cbn [cs_id cs_phase] in Hrk; rewrite Hrk end.
+      simpl. lia.
+    + simpl. rewrite Nat.eqb_refl. simpl. lia.
+Qed.
+
+Lemma end_run_summary st id e s :
+  let p := end_run st id e s in
+  shaped id (snd p) /\ (forall j, j <> id -> find_call j (fst p) = find_call j s) /\
+  run_invocations id (snd p) = [] /\
+  (length (fb_invocations id (snd p)) + (rank id (fst p) - 1) <= rank id s - 1)%nat /\
+  (length (returns id (snd p)) + Nat.min 1 (rank id (fst p)) <= Nat.min 1 (rank id s))%nat.
+Proof.
+  cbv zeta.
+  assert (idle : shaped id (@nil obs) /\ (forall j, j <> id -> find_call j s = find_call j s) /\
+    run_invocations id [] = [] /\
+    (length (fb_invocations id []) + (rank id s - 1) <= rank id s - 1)%nat /\
+    (length (returns id []) + Nat.min 1 (rank id s) <= Nat.min 1 (rank id s))%nat).
+  { split; [constructor|]. split; [reflexivity|]. simpl. split; [reflexivity|]. lia. }
+  destruct (find_call id s) as [cs|] eqn:Hf.
+  2:{ unfold end_run; rewrite Hf. exact idle. }
+  assert (Hrk : forall a b c, cs_phase cs = PRun a b c \/ cs_phase cs = PPass -> rank id s = 2%nat).
+  { intros a b c H. unfold rank. rewrite Hf. destruct H as [H|H]; rewrite H; reflexivity. }
+  destruct (cs_phase cs) as [start expected derived| |fbstart ran derived] eqn:Hp.
+  3:{ unfold end_run; rewrite Hf, Hp. exact idle. }
+  2:{ unfold end_run; rewrite Hf, Hp. cbn [fst snd]. rewrite (Hrk 0 None false) by auto.
+      split; [repeat constructor|]. split; [intros j Hj; apply find_drop_other; congruence|].
+      rewrite rank_drop_same. simpl. rewrite Nat.eqb_refl. simpl. split; [reflexivity|]. lia. }
+  rewrite (Hrk start expected derived) by auto.
+  destruct (res_panics (e_res e)) eqn:Hr.
+  { destruct (e_res e) as [| | | |v] eqn:Er; try discriminate.
+    rewrite (end_run_panic st id e s cs start expected derived v Hf Hp Er). cbn [fst snd].
+    split; [repeat constructor|]. split; [intros j Hj; rewrite find_drop_other by congruence; reflexivity|].
+    rewrite rank_drop_same. simpl. rewrite Nat.eqb_refl. simpl. split; [reflexivity|]. lia. }
+  rewrite (end_run_PRun st id e s cs start expected derived Hf Hp Hr). cbv zeta.
+  match goal with |- context [run_fanout ?a ?b ?c ?d ?e ?f ?g ?h] =>
+    pose proof (run_fanout_inert a b c d e f g h) as HI; destruct (run_fanout a b c d e f g h) as [s1 o1] end.
+  destruct HI as (Hcalls & _ & _ & _ & _ & Hq); cbn [fst snd] in Hcalls, Hq.
+  assert (direct : forall v a,
+    let p := (drop_call id (set_cmds s1 (cmds s1 - 1)), ORunEnd id (cs_done cs) :: o1 ++ [OReturned id v a]) in
+    shaped id (snd p) /\ (forall j, j <> id -> find_call j (fst p) = find_call j s) /\
+    run_invocations id (snd p) = [] /\
+    (length (fb_invocations id (snd p)) + (rank id (fst p) - 1) <= 2 - 1)%nat /\
+    (length (returns id (snd p)) + Nat.min 1 (rank id (fst p)) <= Nat.min 1 2)%nat).
+  { intros v a. cbv zeta. cbn [fst snd].
+    split; [apply shaped_cons; [reflexivity|]; apply shaped_app; [apply quiet_shaped; exact Hq | repeat constructor]|].
+    split; [intros j Hj; rewrite find_drop_other by congruence; apply find_call_calls; exact Hcalls|].
+    rewrite rank_drop_same, ri_runend, fbi_runend, ret_runend, ri_app, fbi_app, ret_app, ret_one.
+    rewrite (quiet_ri _ _ Hq), (quiet_fbi _ _ Hq), (quiet_ret _ _ Hq). simpl. split; [reflexivity|]. lia. }
+  destruct (res_is_nil (e_res e)); [apply direct|].
+  destruct (res_is_bad (e_res e)); [apply direct|]. clear direct.
+  set (s2 := set_cmds s1 (cmds s1 - 1)).
+  pose proof (fallback_stage_summary st cs (res_val (e_res e)) true derived s2) as HS. cbv zeta in HS.
+  rewrite (find_call_id _ _ _ Hf) in HS.
+  destruct (fallback_stage st cs (res_val (e_res e)) true derived s2) as [s3 o3]. cbn [fst snd] in *.
+  destruct HS as (Hs & Hfo & Hri & Hb1 & Hb2).
+  split; [apply shaped_cons; [reflexivity|]; apply shaped_app; [apply quiet_shaped; exact Hq | exact Hs]|].
+  split; [intros j Hj; rewrite (Hfo j Hj); apply find_call_calls; exact Hcalls|].
+  rewrite ri_runend, fbi_runend, ret_runend, ri_app, fbi_app, ret_app.
+  rewrite (quiet_ri _ _ Hq), (quiet_fbi _ _ Hq), (quiet_ret _ _ Hq). cbn [app].
+  split; [exact Hri|]. lia.
+Qed.
+
+Lemma end_fb_summary st id f s :
+  let p := end_fb st id f s in
+  shaped id (snd p) /\ (forall j, j <> id -> find_call j (fst p) = find_call j s) /\
+  run_invocations id (snd p) = [] /\
+  (length (fb_invocations id (snd p)) + (rank id (fst p) - 1) <= rank id s - 1)%nat /\
+  (length (returns id (snd p)) + Nat.min 1 (rank id (fst p)) <= Nat.min 1 (rank id s))%nat.
+Proof.
+  cbv zeta.
+  assert (idle : shaped id (@nil obs) /\ (forall j, j <> id -> find_call j s = find_call j s) /\
+    run_invocations id [] = [] /\
+    (length (fb_invocations id []) + (rank id s - 1) <= rank id s - 1)%nat /\
+    (length (returns id []) + Nat.min 1 (rank id s) <= Nat.min 1 (rank id s))%nat).
+  { split; [constructor|]. split; [reflexivity|]. simpl. split; [reflexivity|]. lia. }
+  destruct (find_call id s) as [cs|] eqn:Hf.
+  2:{ unfold end_fb; rewrite Hf. exact idle. }
+  destruct (cs_phase cs) as [start expected derived| |fbstart ran derived] eqn:Hp.
+  1,2: unfold end_fb; rewrite Hf, Hp; exact idle.
+  assert (Hrk : rank id s = 1%nat) by (unfold rank; rewrite Hf, Hp; reflexivity).
+  destruct (end_fb_PFb st id f s cs fbstart ran derived Hf Hp) as (pre & Hq & E). rewrite E, Hrk. cbn [fst snd].
+  split; [apply shaped_app; [apply quiet_shaped; exact Hq | repeat constructor]|].
+  split; [intros j Hj; rewrite find_drop_other by congruence; reflexivity|].
+  rewrite rank_drop_same, ri_app, fbi_app, ret_app, ret_one.
+  rewrite (quiet_ri _ _ Hq), (quiet_fbi _ _ Hq), (quiet_ret _ _ Hq). simpl. split; [reflexivity|]. lia.
+Qed.
+
+Lemma rank_cancel i j s : rank j (cancel_call i s) = rank j s.
+Proof.
+  unfold cancel_call. destruct (find_call i s) as [cs|] eqn:Hf; [|reflexivity].
+  destruct (Nat.eq_dec i j) as [->|Hn].
+  - match goal with |- context [put_call ?c ?s] => pose proof (rank_put_same c s) as Hr; cbn [cs_id cs_phase] in Hr; rewrite Hr end.
+    unfold rank. rewrite Hf. destruct (cs_phase cs); reflexivity.
+  - apply rank_find, find_put_other. cbn. exact Hn.
+Qed.
+
+(* the shape of every segment *)
+Lemma step_core_shape st s ev :
+  let p := step_core st s ev in
+  match event_id ev with
+  | Some i => shaped i (snd p) /\ forall j, j <> i -> find_call j (fst p) = find_call j s
+  | None => quiet (snd p) /\ forall j, rank j (fst p) = rank j s
+  end.
+Proof.
+  cbv zeta. destruct ev as [id c|id e|id f|id| | |l|d|k]; cbn [event_id step_core].
+  - pose proof (begin_summary st id c s) as H. cbv zeta in H. tauto.
+  - pose proof (end_run_summary st id e s) as H. cbv zeta in H. tauto.
+  - pose proof (end_fb_summary st id f s) as H. cbv zeta in H. tauto.
+  - cbn [fst snd]. split; [constructor|]. intros j; apply rank_cancel.
+  - pose proof (open_circuit_inert st (clock s) s) as (Hc & _ & _ & _ & _ & Hq).
+    split; [exact Hq|]. intros j; apply rank_calls; exact Hc.
+  - pose proof (close_circuit_inert st (clock s) true false s) as (Hc & _ & _ & _ & _ & Hq).
+    split; [exact Hq|]. intros j; apply rank_calls; exact Hc.
+  - cbn [fst snd]. split; [constructor|]. reflexivity.
+  - cbn [fst snd]. split; [constructor|]. reflexivity.
+  - cbn [fst snd]. split; [constructor|]. reflexivity.
+Qed.
+
+Lemma step_fst_snd st s ev :
+  step st s ev = (fst (step_core st s ev), snd (step_core st s ev) ++ [reading st (fst (step_core st s ev))]).
+Proof. unfold step. destruct (step_core st s ev); reflexivity. Qed.
+
+(* one segment that is not the Begin of call id *)
+Lemma step_rank st id s ev :
+  is_begin id ev = false ->
+  let p := step st s ev in
+  run_invocations id (snd p) = [] /\
+  (length (fb_invocations id (snd p)) + (rank id (fst p) - 1) <= rank id s - 1)%nat /\
+  (length (returns id (snd p)) + Nat.min 1 (rank id (fst p)) <= Nat.min 1 (rank id s))%nat.
+Proof.
+  intros Hb. cbv zeta. rewrite step_fst_snd. cbn [fst snd].
+  rewrite ri_app, fbi_app, ret_app.
+  rewrite (quiet_ri _ _ (quiet_reading _ _)), (quiet_fbi _ _ (quiet_reading _ _)), (quiet_ret _ _ (quiet_reading _ _)).
+  rewrite !app_nil_r.
+  set (p := step_core st s ev).
+  assert (other : forall i, i <> id -> shaped i (snd p) ->
+            (forall j, j <> i -> find_call j (fst p) = find_call j s) ->
+    run_invocations id (snd p) = [] /\
+    (length (fb_invocations id (snd p)) + (rank id (fst p) - 1) <= rank id s - 1)%nat /\
+    (length (returns id (snd p)) + Nat.min 1 (rank id (fst p)) <= Nat.min 1 (rank id s))%nat).
+  { intros i Hn Hs Hf.
+    rewrite (shaped_other_ri i id _ Hs Hn), (shaped_other_fbi i id _ Hs Hn), (shaped_other_ret i id _ Hs Hn).
+    rewrite (rank_find id s _ (Hf id (not_eq_sym Hn))). cbn [length]. split; [reflexivity|]. lia. }
+  assert (silent : quiet (snd p) -> (forall j, rank j (fst p) = rank j s) ->
+    run_invocations id (snd p) = [] /\
+    (length (fb_invocations id (snd p)) + (rank id (fst p) - 1) <= rank id s - 1)%nat /\
+    (length (returns id (snd p)) + Nat.min 1 (rank id (fst p)) <= Nat.min 1 (rank id s))%nat).
+  { intros Hq Hr. rewrite (quiet_ri _ _ Hq), (quiet_fbi _ _ Hq), (quiet_ret _ _ Hq), Hr. cbn [length].
+    split; [reflexivity|]. lia. }
+  pose proof (step_core_shape st s ev) as HS. cbv zeta in HS. fold p in HS.
+  destruct ev as [i c|i e|i f|i| | |l|d|k]; cbn [event_id is_begin] in HS, Hb;
+    try (destruct HS as [HS1 HS2]; apply silent; assumption).
+  - destruct HS as [H1 H2]. apply (other i); auto. intros ->. rewrite Nat.eqb_refl in Hb. discriminate.
+  - destruct (Nat.eq_dec i id) as [->|Hn]; [|destruct HS as [H1 H2]; apply (other i); auto].
+    subst p. cbn [step_core]. pose proof (end_run_summary st id e s) as H. cbv zeta in H. tauto.
+  - destruct (Nat.eq_dec i id) as [->|Hn]; [|destruct HS as [H1 H2]; apply (other i); auto].
+    subst p. cbn [step_core]. pose proof (end_fb_summary st id f s) as H. cbv zeta in H. tauto.
+Qed.
+
+Lemma all_obs_cons st s ev h :
+  all_obs (trace_from st s (ev :: h)) = snd (step st s ev) ++ all_obs (trace_from st (fst (step st s ev)) h).
+Proof. cbn [trace_from]. destruct (step st s ev) as [s1 o]. reflexivity. Qed.
+
+Lemma rest_bound st id : forall h s,
+  ~ In id (begin_ids h) ->
+  let o := all_obs (trace_from st s h) in
+  run_invocations id o = [] /\
+  (length (fb_invocations id o) <= rank id s - 1)%nat /\
+  (length (returns id o) <= Nat.min 1 (rank id s))%nat.
+Proof.
+  induction h as [|ev h IH]; intros s Hn; cbv zeta.
+  { simpl. split; [reflexivity|]. lia. }
+  assert (Hb : is_begin id ev = false).
+  { destruct ev; try reflexivity. cbn [is_begin]. destruct (Nat.eqb_spec id0 id); [|reflexivity].
+    exfalso; apply Hn. subst. cbn. left; reflexivity. }
+  assert (Hn' : ~ In id (begin_ids h)).
+  { intros H; apply Hn. unfold begin_ids in *. cbn [flat_map]. apply in_or_app; right; exact H. }
+  rewrite all_obs_cons, ri_app, fbi_app, ret_app, !app_length.
+  pose proof (step_rank st id s ev Hb) as (H1 & H2 & H3).
+  specialize (IH (fst (step st s ev)) Hn'). cbv zeta in IH. destruct IH as (I1 & I2 & I3).
+  rewrite H1, I1. split; [reflexivity|]. lia.
+Qed.
+
+Lemma at_most_once (st : static) : forall s id c h2,
+  find_call id s = None -> ~ In id (begin_ids h2) ->
+  let o := all_obs (trace_from st s (Begin id c :: h2)) in
+  (length (run_invocations id o) <= 1)%nat /\ (length (fb_invocations id o) <= 1)%nat /\
+  (length (returns id o) <= 1)%nat.
+Proof.
+  intros s id c h2 Hf Hn. cbv zeta.
+  rewrite all_obs_cons, ri_app, fbi_app, ret_app, !app_length.
+  pose proof (rest_bound st id h2 (fst (step st s (Begin id c))) Hn) as (I1 & I2 & I3).
+  rewrite I1. rewrite step_fst_snd in *. cbn [fst snd step_core] in *.
+  pose proof (begin_summary st id c s) as (_ & _ & HB). specialize (HB Hf). destruct HB as (B1 & B2 & B3).
+  rewrite ri_app, fbi_app, ret_app, !app_length.
+  rewrite (quiet_ri _ _ (quiet_reading _ _)), (quiet_fbi _ _ (quiet_reading _ _)), (quiet_ret _ _ (quiet_reading _ _)).
+  simpl. lia.
+Qed.
